@@ -588,6 +588,10 @@ func registerLib(e *Engine) {
 		"internal/race.Read", "internal/race.Write", "internal/race.ReadRange", "internal/race.WriteRange", "runtime.SetFinalizer"} {
 		I[n] = func(e *Engine, st *State, th *Thread, args []Value, call *ssa.CallCommon) (Value, bool) { return nil, true }
 	}
+	I["os.Getpid"] = func(e *Engine, st *State, th *Thread, args []Value, call *ssa.CallCommon) (Value, bool) {
+		return e.i64(4242), true
+	}
+	I["syscall.Getpid"] = I["os.Getpid"]
 	I["math.Float64bits"] = func(e *Engine, st *State, th *Thread, args []Value, call *ssa.CallCommon) (Value, bool) {
 		e.unsupported("math.Float64bits")
 		return nil, true
